@@ -396,6 +396,10 @@ func step(r *rep.Report, locs map[string]*core.Location, m *ref.Loc, run *[]op, 
 					r.Violate("c02.propvar-unindexed-value", "indexed state misses a fact matched through a property variable bound to a key whose value is not indexed (`rule`, or a key ending in '!')", wit(rep.J{"state": k, "got": got[k], "want": want}))
 					continue
 				}
+				if k == "indexed" && ref.Subset(got[k], want) && ref.HasOptionalVar(o.Pattern) {
+					r.Violate("c02.optional-variable", "indexed state misses a fact that matches because the key of an optional variable (\"??y\") is absent: the key is a required index term", wit(rep.J{"state": k, "got": got[k], "want": want}))
+					continue
+				}
 				what := "SearchFacts disagrees with brute-force matching over the stored facts"
 				if !ref.Subset(want, got[k]) {
 					what += " (a matching fact is missing)"
@@ -508,6 +512,10 @@ func directed(r *rep.Report) {
 		{Op: "add", Id: "f1", Fact: map[string]interface{}{"c": "x"}},
 		{Op: "search", Pattern: map[string]interface{}{"a": "?x"}},
 		{Op: "get", Id: "f1"},
+		// the matcher's optional variable: the key may be absent
+		{Op: "search", Pattern: map[string]interface{}{"a": "s1", "b": "??y"}},
+		{Op: "add", Id: "f4", Fact: map[string]interface{}{"a": "s1", "b": "here"}},
+		{Op: "search", Pattern: map[string]interface{}{"a": "s1", "b": "??y"}},
 	} {
 		step(r, locs, m, &run, o, written, gi)
 	}
